@@ -103,7 +103,7 @@ func cmdPlugin(args []string) {
 	stride := fs.Int("stride", 1, "execute every n-th case")
 	fs.Parse(args)
 	u := corpus.PluginUniverse()
-	universe := []*corpus.File{u["A"], u["xa2"], u["B"], u["C"], u["D"], u["E"]}
+	universe := []*corpus.File{u["xbe"], u["A"], u["xa2"], u["B"], u["C"], u["D"], u["E"]}
 	base := map[string]string{}
 	for k, f := range u {
 		base[strings.TrimSuffix(filepath.Base(f.Name), ".proto")] = k
